@@ -1,19 +1,39 @@
 (* C17 — end-of-block processing never fails.  The full statement is FALSE of
-   the unchanged code: three refutations, each a history that was executed on
+   the code: two refutations (a third defect was repaired, see below), each a history that was executed on
    the real implementation (corpus/F_C17_*.jsonl), shrunk there, and is replayed
    here through the model.  What does hold is stated leg by leg. *)
 From Coq Require Import ZArith List Bool.
 From Alliance Require Import Num KMap Types Monad Model Step Spec Hoare WitnessLib.
 From Alliance.Witness Require Import F_C17_interval_zero F_C17_decay_overflow F_C17_div_zero.
-From Alliance.Proofs Require Import Totality.
+From Alliance.Proofs Require Import Totality ParamsInv.
 Import ListNotations.
 Open Scope Z_scope.
 
-(* F-C17-1: UpdateParams accepts TakeRateClaimInterval = 0; the next end-of-block
-   divides by it (panic, model code 106).  Last operation of the witness: OEndBlock. *)
-Example C17_refuted_interval_zero : last_result ops_F_C17_interval_zero = Some (R_PANIC, P_DIV_ZERO_INTERVAL).
+(* F-C17-1 (FIXED in /repo by "fix: reject a non-positive TakeRateClaimInterval in UpdateParams"):
+   UpdateParams accepted TakeRateClaimInterval = 0 and the next end-of-block divided by it.
+   The witness history (executed on the real implementation before the fix) now ends well:
+   the parameter change is refused and the last operation, OEndBlock, succeeds. *)
+Example C17_fixed_interval_zero : last_result ops_F_C17_interval_zero = Some (R_OK, 0).
 Proof. vm_compute. reflexivity. Qed.
-Print Assumptions C17_refuted_interval_zero.
+Print Assumptions C17_fixed_interval_zero.
+
+(* acceptance implies runnability for the claim interval: an accepted UpdateParams stores a
+   positive interval, and in every reachable state the interval is positive, so the integer
+   division of the take-rate leg is never by zero *)
+Theorem C17_accepted_interval_is_positive : forall s au dl iv l,
+  snd (step s (OUpdateParams au dl iv l)) = R_OK -> 0 < p_interval (params (fst (step s (OUpdateParams au dl iv l)))).
+Proof. exact accepted_interval_positive. Qed.
+Print Assumptions C17_accepted_interval_is_positive.
+
+Theorem C17_interval_positive_in_every_reachable_state : forall h s0,
+  0 < p_interval (params s0) -> Forall params_op_ok h -> 0 < p_interval (params (run s0 h)).
+Proof. exact run_interval_positive. Qed.
+Print Assumptions C17_interval_positive_in_every_reachable_state.
+
+Theorem C17_take_rate_leg_never_divides_by_zero : forall last als s,
+  0 < p_interval (params s) -> res_code (deduct_take_rate last als s) <> P_DIV_ZERO_INTERVAL.
+Proof. exact deduct_no_interval_panic. Qed.
+Print Assumptions C17_take_rate_leg_never_divides_by_zero.
 
 (* F-C17-2: governance accepts a growth rate with a tiny interval; Power overflows
    (315 bits) in the end-of-block decay hook (panic, model code 103). *)
